@@ -75,7 +75,15 @@ def expr_cases(draw):
     base['A'] = gen_xpath.render(gen_xpath.fix_bare_slash(draw(gen_xpath.nodeset(1))), [' '])
     base['B'] = gen_xpath.render(gen_xpath.fix_bare_slash(draw(gen_xpath.nodeset(1))), [' '])
     base['C'] = gen_xpath.render(gen_xpath.fix_bare_slash(draw(gen_xpath.nodeset(0))), [' '])
+    if draw(st.sampled_from([0, 0, 0, 0, 1])):
+        # namespace nodes as operands of a union (judged by the laws only, see check_expr)
+        for name in draw(st.sampled_from([('A',), ('B',), ('A', 'B'), ('A', 'C')])):
+            base[name] = draw(st.sampled_from(NS_EXPRS))
     return base
+
+
+NS_EXPRS = ['namespace::*', '*/namespace::*', '//namespace::*', 'descendant-or-self::*/namespace::*', 'ancestor-or-self::*/namespace::*', '../namespace::*',
+            'namespace::* | @*', '(//*)[last()]/namespace::*', '//*[@*]/namespace::*', 'namespace::p | namespace::q', '//namespace::*[name() != \'xml\']']
 
 
 def strategy(ctx):
@@ -255,8 +263,12 @@ def check_expr(ctx, case):
         case = dict(case, docform='native')
         prep.case = case
     A, B, C = case['A'], case['B'], case['C']
-    if any(re.search(r'namespace\s*::', e) for e in (A, B, C)):
-        return None
+    nsaxis = any(re.search(r'namespace\s*::', e) for e in (A, B, C))
+    if nsaxis and case.get('docform') == 'xerces':
+        return None          # F-C02-namespace-axis: the Xerces form lacks the xml namespace node
+    # namespace nodes are not in the reference's node table (they are the declaring elements' xmlns attributes in Xalan, shared between
+    # elements: F-C02-namespace-axis), so with the namespace axis only what needs no model is judged: no duplicates, and the union
+    # laws as equal SEQUENCES (the implementation's document order is one total order, whatever it is for namespace nodes)
     by = {n.key: n for n in prep.doc.nodes(attrs=True, ns=False)}
 
     def ev(e):
@@ -270,11 +282,13 @@ def check_expr(ctx, case):
             return None
     nsel = len(res['AB_C'][0])
     rootin = '/' in res['AB_C'][0]
-    ctx.note(case, nsel >= 2, ['k:expr', 'form:' + case.get('docform', 'native')] + (['root-in-result'] if rootin else []),
+    ctx.note(case, nsel >= 2, ['k:expr', 'form:' + case.get('docform', 'native')] + (['root-in-result'] if rootin else []) + (['namespace-axis'] if nsaxis else []),
              sample_text={'A': A, 'B': B, 'C': C, 'n': nsel})
     for name, (keys, flag) in res.items():
         if len(keys) != len(set(keys)):
             return {'what': 'expr-duplicates', 'expr': name, 'A': A, 'B': B, 'C': C, 'got': keys[:20], 'root': rootin}
+        if nsaxis:
+            continue
         if name != 'A' or flag == 'doc':
             # a union result is delivered in document order
             exp = sorted(keys, key=lambda k: by[k].order)
@@ -288,7 +302,7 @@ def check_expr(ctx, case):
         ky, fy = res[y]
         if set(kx) != set(ky):
             return {'what': 'law-set-differs', 'law': x + '=' + y, 'A': A, 'B': B, 'C': C, 'x': kx[:20], 'y': ky[:20], 'root': rootin}
-        if fx == fy == 'doc' and not same_order(kx, ky, by):
+        if fx == fy == 'doc' and not (kx == ky if nsaxis else same_order(kx, ky, by)):
             return {'what': 'law-order-differs', 'law': x + '=' + y, 'A': A, 'B': B, 'C': C, 'x': kx[:20], 'y': ky[:20], 'root': rootin}
     return None
 
